@@ -36,7 +36,7 @@ def cases(tier, seed):
                     out.append(dict(gen='stat', subject=name, precision=prec, regime=regime, degen=degen, sub=core.subseed('C03', seed, k), must=True))
                     k += 1
     rs = np.random.default_rng(core.subseed('C03r', seed))
-    n_rand = 700 if tier == 'quick' else 40000
+    n_rand = 4000 if tier == 'quick' else 60000
     for j in range(n_rand):
         regime = 'E' if rs.random() < 0.7 else 'R'
         out.append(dict(gen='stat', subject=['cpa', 'cpa_alt', 'dpa'][int(rs.integers(3))], precision=['float32', 'float64'][int(rs.integers(2))],
